@@ -1,6 +1,7 @@
 """C12 -- the k-NN graph and density estimate are exact."""
 RUN = ("checks.knn", "run_config")
 MAX_WITNESSES = 150
+MAX_REPLAYS = 16
 
 
 def configs(tier, seed):
